@@ -53,7 +53,10 @@ func run(r *vrt.Run) {
 	r.Rule("case = node of one rule set (Cancun/Prague/Osaka/Amsterdam) with 6 generated contracts + probe/transient-storage/log/burner/deposit contracts, 1-5 consecutive payloads; before each payload the pools receive 15-90 random transactions of 20 kinds (see package comment) and random payload attributes (timestamp delta, prevrandao, fee recipient, 0-16 withdrawals, beacon root, slot number); built via engine API or miner.BuildPayload; one evaluation per payload; signature = (fork, build path, empty/full, transaction kinds included, skipped classes, which limit stopped filling, withdrawals bucket)")
 	nCases := r.N(24, 1200)
 	if r.Race() {
-		nCases = r.N(5, 80)
+		nCases = r.N(3, 60)
+		nBlobs = 2
+		raceBuild = true
+		blockGasLimit = 6_000_000
 	}
 	blobs() // KZG material once
 	if v := os.Getenv("VERIF_ONLY"); v != "" {
@@ -69,8 +72,8 @@ func run(r *vrt.Run) {
 			// the race variant is a small sample of the same workload (coverage obligations are
 			// carried by the default variant; under the race detector the engine API often
 			// returns the empty payload)
-			r.Require("payloads_checked", 6)
-			r.Require("payloads_nonempty", 3)
+			r.Require("payloads_checked", 4)
+			r.Require("payloads_nonempty", 2)
 		} else {
 			r.Require("payloads_checked", 48)
 			r.Require("payloads_nonempty", 30)
@@ -139,7 +142,7 @@ func runCase(r *vrt.Run, idx int) {
 	pool.AccountSlots, pool.GlobalSlots, pool.AccountQueue, pool.GlobalQueue = 64, 2048, 64, 1024
 	ethcfg := &ethconfig.Config{Genesis: w.gspec, SyncMode: ethconfig.FullSync, TrieTimeout: time.Minute, TrieDirtyCache: 16, TrieCleanCache: 8, SnapshotCache: 8,
 		TxPool: pool, BlobPool: ethconfig.Defaults.BlobPool,
-		Miner: miner.Config{GasCeil: 30_000_000, GasPrice: big.NewInt(1), Recommit: 300 * time.Millisecond}}
+		Miner: miner.Config{GasCeil: blockGasLimit, GasPrice: big.NewInt(1), Recommit: 300 * time.Millisecond}}
 	ethcfg.BlobPool.Datadir = ""
 	es, err := eth.New(n, ethcfg)
 	if err != nil {
@@ -187,6 +190,9 @@ func (c *ncase) round(rng *rand.Rand, p int) bool {
 	c.src.baseFee = eip1559.CalcBaseFee(w.config, head)
 	// ---- pool content
 	nTx := 15 + rng.Intn(76)
+	if r.Race() {
+		nTx = 10 + rng.Intn(25)
+	}
 	offered := map[string]int{}
 	rejected := 0
 	for i := 0; i < nTx; i++ {
